@@ -182,6 +182,15 @@ def step (r : RSt) (toks : List String) : RSt × String :=
       | .panic => (r, "panic")
       | .oob => (r, "oob")
     | _, _ => bad
+  | ["push_unchecked", v] =>
+    -- emitted by the harness only under the documented contract (then it is an accepted push)
+    match r.ph, parseNat v with
+    | .seq b, some v =>
+      match b.pushUnchecked v with
+      | .ok b' => ({ ph := .seq b' }, "ok")
+      | .panic => (r, "panic")
+      | .oob => (r, "oob")
+    | _, _ => bad
   | ["extend", vs] =>
     match r.ph, parseNatList vs with
     | .seq b, some vs =>
